@@ -62,6 +62,10 @@ type parseSession struct {
 	internal any
 	calls    int
 	fresh    bool // never reuse
+	// track: the case file also gets the input this session parsed right before the current
+	// one, so a death that depends on what the previous call left behind can be replayed
+	track *curFile
+	prev  []byte
 }
 
 func (s *parseSession) parse(c Cfg, in []byte, nd bool) (*simdjson.ParsedJson, error, string) {
@@ -80,6 +84,14 @@ func (s *parseSession) parse(c Cfg, in []byte, nd bool) (*simdjson.ParsedJson, e
 	}
 	if s.reuse != nil {
 		simdjson.VerifReattach(s.reuse, s.internal)
+	}
+	if s.track != nil {
+		s.track.SetPrev(s.prev)
+		if len(in) <= 1<<18 {
+			s.prev = append(s.prev[:0], in...)
+		} else {
+			s.prev = s.prev[:0]
+		}
 	}
 	pj, err, p := doParse(c, in, s.reuse, nd)
 	if p != "" {
